@@ -550,6 +550,71 @@ func (c *specCtx) call(x *SCall) Val {
 			}
 		}
 		return c.fail("len of %s", v.Sort)
+	case "sum":
+		// sum(f, s, n) = f(s[0]) + ... + f(s[n-1])
+		if !argn(3) {
+			return c.intV("0")
+		}
+		fid, ok := x.Args[0].(*SIdent)
+		if !ok || vc.eng.ufuns[fid.Name] == nil {
+			return c.fail("sum: first argument must be a ghost fn")
+		}
+		sv := c.eval(x.Args[1])
+		n := c.eval(x.Args[2])
+		arr := sv.S
+		if sv.Ty != nil {
+			if _, isSl := sv.Ty.Underlying().(*types.Slice); isSl {
+				arr, _, _ = vc.sliceParts(sv)
+			}
+		}
+		vc.needPsum(fid.Name)
+		return c.intV(fmt.Sprintf("(psum_%s %s %s)", fid.Name, arr, n.S))
+	case "upd":
+		// upd(m, k, v): map / array update
+		if !argn(3) {
+			return c.boolV("true")
+		}
+		m := c.eval(x.Args[0])
+		k := c.eval(x.Args[1])
+		v := c.eval(x.Args[2])
+		if strings.HasPrefix(m.Sort, "(Array ") {
+			ks, es := arrayKeySort(m.Sort), arrayElemSort(m.Sort)
+			if v.Ty != nil && isNilType(v.Ty) {
+				v = Val{S: vc.eng.sorts.zeroOfSort(es, nil), Sort: es}
+			}
+			if k.Sort != ks || v.Sort != es {
+				return c.fail("upd: sort mismatch (%s,%s) into %s", k.Sort, v.Sort, m.Sort)
+			}
+			return Val{S: fmt.Sprintf("(store %s %s %s)", m.S, k.S, v.S), Sort: m.Sort, Ty: m.Ty}
+		}
+		if m.Ty != nil {
+			if mt, ok := m.Ty.Underlying().(*types.Map); ok {
+				k = vc.convert(c.cur, k, mt.Key())
+				v = vc.convert(c.cur, v, mt.Elem())
+				return vc.mapStore(m, k, v)
+			}
+		}
+		return c.fail("upd on %s", m.Sort)
+	case "add", "del":
+		if !argn(2) {
+			return c.boolV("true")
+		}
+		m := c.eval(x.Args[0])
+		k := c.eval(x.Args[1])
+		if strings.HasPrefix(m.Sort, "(Array ") && arrayElemSort(m.Sort) == "Bool" {
+			b := "true"
+			if x.Fun == "del" {
+				b = "false"
+			}
+			return Val{S: fmt.Sprintf("(store %s %s %s)", m.S, k.S, b), Sort: m.Sort}
+		}
+		if m.Ty != nil && x.Fun == "del" {
+			if mt, ok := m.Ty.Underlying().(*types.Map); ok {
+				k = vc.convert(c.cur, k, mt.Key())
+				return vc.mapDelete(m, k)
+			}
+		}
+		return c.fail("%s on %s", x.Fun, m.Sort)
 	case "origin":
 		v := c.eval(x.Args[0])
 		_, _, org := vc.sliceParts(v)
@@ -602,6 +667,13 @@ func (c *specCtx) call(x *SCall) Val {
 		}
 		r, _ := vc.typeAssert(c.cur, v, t)
 		return r
+	case "errAs":
+		v := c.eval(x.Args[0])
+		t := c.lookupType(x.Args[1].(*SStr).V)
+		if t == nil {
+			return c.fail("unknown type in errAs")
+		}
+		return c.boolV(vc.errAsTerm(c.cur, v.S, t))
 	case "zero":
 		t := c.lookupType(x.Args[0].(*SStr).V)
 		if t == nil {
@@ -814,4 +886,54 @@ func (vc *VC) ghostGet(st *State, name string) string {
 		return t
 	}
 	return vc.ghostInit(name)
+}
+
+
+// needPsum declares the prefix-sum function of measure f with its (pattern-guarded) axioms.
+func (vc *VC) needPsum(f string) {
+	name := "psum_" + f
+	if vc.declared[name] {
+		return
+	}
+	vc.declareFun(name, []string{"(Array Int Int)", "Int"}, "Int")
+	vc.declareFun("uf_"+f, []string{"Int"}, "Int")
+	ax := []string{
+		fmt.Sprintf("(forall ((a (Array Int Int))) (! (= (%s a 0) 0) :pattern ((%s a 0))))", name, name),
+		fmt.Sprintf("(forall ((a (Array Int Int)) (i Int)) (! (=> (>= i 0) (= (%s a (+ i 1)) (+ (%s a i) (uf_%s (select a i))))) :pattern ((%s a i) (select a i))))", name, name, f, name),
+		fmt.Sprintf("(forall ((a (Array Int Int)) (i Int) (j Int)) (! (=> (and (<= 0 i) (<= i j)) (<= (%s a i) (%s a j))) :pattern ((%s a i) (%s a j))))", name, name, name, name),
+		fmt.Sprintf("(forall ((a (Array Int Int)) (k Int) (v Int) (n Int)) (! (= (%s (store a k v) n) (+ (%s a n) (ite (and (<= 0 k) (< k n)) (- (uf_%s v) (uf_%s (select a k))) 0))) :pattern ((%s (store a k v) n))))", name, name, f, f, name),
+	}
+	for _, a := range ax {
+		vc.globalAxioms = append(vc.globalAxioms, "(assert "+a+")")
+	}
+	vc.noteAssumption("prefix-sum axioms for measure " + f + " (definition, monotonicity for non-negative measures, update lemma; proved by induction in /verif/lemmas)")
+}
+
+// sumFact adds ground consequences of the sum lemmas for every measure in use. Terms are built by mk(psumName).
+func (vc *VC) sumFacts(st *State, elemSort string, mk func(ps func(arr, n string) string, f string) []string) {
+	if elemSort != "Int" {
+		return
+	}
+	for _, f := range vc.eng.measures {
+		vc.needPsum(f)
+		name := "psum_" + f
+		ps := func(arr, n string) string { return fmt.Sprintf("(%s %s %s)", name, arr, n) }
+		for _, fact := range mk(ps, f) {
+			vc.assume(st, fact)
+		}
+	}
+}
+
+
+// errAsTerm: "errors.As(err, &target) with target of type t succeeds"
+func (vc *VC) errAsTerm(st *State, errS string, t types.Type) string {
+	tid := vc.eng.sorts.tid(t)
+	fn := fmt.Sprintf("errAs_%d", tid)
+	if !vc.declared[fn] {
+		vc.declareFun(fn, []string{"Int"}, "Bool")
+		vc.needDyntype()
+		vc.globalAxioms = append(vc.globalAxioms, fmt.Sprintf("(assert (forall ((e Int)) (! (=> (and (not (= e 0)) (= (dyntype e) %d)) (%s e)) :pattern ((%s e)) :pattern ((dyntype e)))))", tid, fn, fn))
+		vc.globalAxioms = append(vc.globalAxioms, fmt.Sprintf("(assert (not (%s 0)))", fn))
+	}
+	return fmt.Sprintf("(%s %s)", fn, errS)
 }
